@@ -458,6 +458,7 @@ func c04Dispatch(r *Report, s *Sem, R6 string) {
 }
 
 func c05(r *Report, s *Sem) {
+	defer r.Import(s, "C15", "L", "R7", "the pending table stays available while requests are written: its mutex is never held across a blocking primitive or a call that reaches one (a table locked during a transport write blocks the receiver's hand-off of every other response and the clean-up of every caller that gave up)", 1)
 	p := r.P
 	R1 := r.Rule("R1", "every access to the pending-request table happens with its RW-mutex held, writes and deletes under the write lock", 5)
 	R2 := r.Rule("R2", "in the request path the duplicate lookup and the insert are one critical section, the insert is keyed by the request's id, the reply channel is created per call with capacity ≥ 1, and a deferred delete of that key covers every exit after the insert", 5)
